@@ -18,6 +18,16 @@ Proof.
   destruct i; reflexivity.
 Qed.
 
+Lemma map_nth_in {A B} (f : A -> B) l i d d' : i < length l -> nth i (map f l) d' = f (nth i l d).
+Proof. revert i; induction l; intros [|i] H; simpl in *; try lia; auto. apply IHl; lia. Qed.
+
+Lemma skipn_S_tail {A} (l : list A) j x r : skipn j l = x :: r -> skipn (S j) l = r /\ nth j l x = x.
+Proof.
+  revert l. induction j as [|j IH]; intros [|y l] H; simpl in *; try discriminate.
+  - inversion H; subst. split; reflexivity.
+  - apply IH. exact H.
+Qed.
+
 (* ---------- monadic map / fold ---------- *)
 
 Lemma mapM_ok {A B} (f : A -> res B) (g : A -> B) (l : list A) :
@@ -127,9 +137,7 @@ Section RowsUpdate.
     apply (nth_ext_len _ _ []).
     - rewrite map_length, combine_length. lia.
     - intros j Hj. rewrite Hlm, <- Hl in Hj. pose proof (Hin j Hj) as E. simpl in E. rewrite E.
-      rewrite (nth_indep _ [] (g 0 [])) by (rewrite map_length, combine_length; lia).
-      change (g 0 []) with ((fun jo : nat * list T => g (fst jo) (snd jo)) (0, [])).
-      rewrite (map_nth (fun jo : nat * list T => g (fst jo) (snd jo))).
+      rewrite (map_nth_in _ _ _ (0, [])) by (rewrite combine_length; lia).
       rewrite combine_nth by auto. reflexivity.
   Qed.
 
@@ -196,12 +204,11 @@ Section Generic.
   Proof.
     induction pr as [|prow rest IH]; intros j Hl Hp; simpl; auto.
     assert (Hj : j < length pssm) by (simpl in Hl; lia).
-    assert (Hrow : nth j pssm [] = prow).
-    { rewrite <- (firstn_skipn j pssm) at 1. rewrite app_nth2; rewrite firstn_length; [|lia].
-      rewrite <- Hp. replace (j - Nat.min j (length pssm)) with 0 by lia. reflexivity. }
+    destruct (skipn_S_tail pssm j prow rest (eq_sym Hp)) as [Hs Hn].
+    assert (Hrow : nth j pssm [] = prow) by (rewrite (nth_indep _ [] prow); auto).
     rewrite Hrow. f_equal. apply IH.
     - simpl in Hl. lia.
-    - replace (S j) with (1 + j) by lia. rewrite <- skipn_skipn, <- Hp. reflexivity.
+    - symmetry. exact Hs.
   Qed.
 
   Lemma score_terms_map pssm s i :
@@ -245,10 +252,10 @@ Section Generic.
   Lemma gen_cell_panic (m : list (list nat)) seq_row col :
     mat_wf m -> col < C ->
     forall pr j acc,
-      pssm_wf pr -> length m < seq_row + j + length pr ->
+      pssm_wf pr -> 1 <= length pr -> length m < seq_row + j + length pr ->
       is_panic (gen_cell add pr m seq_row col j acc) = true.
   Proof.
-    intros Hm Hc. induction pr as [|prow rest IH]; intros j acc Hp Hl; simpl in *; [lia|].
+    intros Hm Hc. induction pr as [|prow rest IH]; intros j acc Hp H1 Hl; simpl in *; [lia|].
     inversion Hp as [|? ? Hk Hrest]; subst.
     destruct (le_lt_dec (length m) (seq_row + j)) as [Hge|Hr].
     - apply nth_error_None in Hge. rewrite Hge. reflexivity.
@@ -258,7 +265,7 @@ Section Generic.
       assert (Hs : nth col (nth (seq_row + j) m []) N < length prow).
       { rewrite Hk. rewrite Forall_forall in Hsym. apply Hsym. apply nth_In. lia. }
       rewrite (nth_error_nth' prow zero Hs).
-      apply IH; auto. lia.
+      apply IH; auto; destruct rest; simpl in *; lia.
   Qed.
 
   Definition cell_of (pssm : list (list T)) (m : list (list nat)) (r c : nat) : T :=
@@ -281,10 +288,10 @@ Section Generic.
   Qed.
 
   Lemma gen_row_panic pssm m seq_row :
-    0 < C -> mat_wf m -> pssm_wf pssm -> length m < seq_row + length pssm ->
+    0 < C -> mat_wf m -> pssm_wf pssm -> 1 <= length pssm -> length m < seq_row + length pssm ->
     is_panic (gen_row add zero C pssm m seq_row) = true.
   Proof.
-    intros HC Hm Hp Hl. unfold gen_row. apply mapM_panic.
+    intros HC Hm Hp H1 Hl. unfold gen_row. apply mapM_panic.
     - intros c _. apply gen_cell_ok_or_panic.
     - exists 0. split; [apply in_seq; lia|]. apply gen_cell_panic; auto. lia.
   Qed.
@@ -336,7 +343,7 @@ Section Generic.
   Proof.
     intros H. unfold generic_rows_into.
     replace ((sq_len q <? length pssm) || negb (a <? b)) with true.
-    - unfold sc_resize, m_resize. simpl. rewrite firstn_O. reflexivity.
+    - unfold sc_resize, m_resize. simpl. reflexivity.
     - symmetry. apply orb_true_iff. destruct H as [H|H].
       + left. apply Nat.ltb_lt. auto.
       + right. apply negb_true_iff. apply Nat.ltb_ge. auto.
@@ -385,7 +392,7 @@ Section Generic.
     - rewrite Hlen. f_equal. f_equal. rewrite Nat.sub_0_r.
       apply map_ext_in. intros r Hr. apply in_seq in Hr.
       apply map_ext_in. intros c Hc. apply in_seq in Hc.
-      apply striped_cell_of; [repeat split; auto| lia | lia].
+      apply striped_cell_of; [repeat split; auto; apply Hrest| lia | lia].
   Qed.
 
   Lemma generic_score_short pssm s q :
@@ -431,14 +438,9 @@ Section Generic.
     nth c (nth r (full_mat pssm s) []) zero = score_def pssm s (c * seq_R (length s) + r).
   Proof.
     intros Hr Hc. unfold full_mat.
-    rewrite (nth_indep _ [] (map (fun c0 => score_def pssm s (c0 * seq_R (length s) + 0)) (seq 0 C)))
-      by (rewrite map_length, seq_length; auto).
-    rewrite (map_nth (fun r0 => map (fun c0 => score_def pssm s (c0 * seq_R (length s) + r0)) (seq 0 C))
-                     (seq 0 (seq_R (length s))) 0 r).
+    rewrite (map_nth_in _ _ _ 0) by (rewrite seq_length; auto).
     rewrite seq_nth by auto. simpl.
-    rewrite (nth_indep _ zero (score_def pssm s (0 * seq_R (length s) + r)))
-      by (rewrite map_length, seq_length; auto).
-    rewrite (map_nth (fun c0 => score_def pssm s (c0 * seq_R (length s) + r)) (seq 0 C) 0 c).
+    rewrite (map_nth_in _ _ _ 0) by (rewrite seq_length; auto).
     rewrite seq_nth by auto. reflexivity.
   Qed.
 
@@ -455,9 +457,7 @@ Section Generic.
     rewrite (nth_error_nth' _ []) by (rewrite full_mat_length; auto).
     assert (Hrl : length (nth (i mod R) (full_mat pssm s) []) = C).
     { unfold full_mat. fold R.
-      rewrite (nth_indep _ [] (map (fun c0 => score_def pssm s (c0 * R + 0)) (seq 0 C)))
-        by (rewrite map_length, seq_length; auto).
-      rewrite (map_nth (fun r0 => map (fun c0 => score_def pssm s (c0 * R + r0)) (seq 0 C)) (seq 0 R) 0).
+      rewrite (map_nth_in _ _ _ 0) by (rewrite seq_length; auto).
       rewrite map_length, seq_length. reflexivity. }
     rewrite (nth_error_nth' _ zero) by lia.
     rewrite full_mat_cell; auto. fold R. rewrite div_mod_cell; auto.
